@@ -24,11 +24,14 @@ fn obs_base(c: &Ctx, b: usize, out: &mut Vec<i128>) {
     }
     for i in 0..b { for j in 0..b { out.push(c.contains_edge(i, j) as i128); } }
     // indices beyond 32 bits must not alias live contextoids / relations
-    let big = 1usize << 32;
     let mut alias = 0i128;
-    for i in 0..b {
-        if c.contains_node(i + big) || c.get_node(i + big).is_some() { alias += 1; }
-        for j in 0..b { if c.contains_edge(i + big, j) || c.contains_edge(i, j + big) { alias += 1; } }
+    for sh in [8u32, 16, 32, 48] {
+        let big = 1usize << sh;
+        if big < b || (b > 40 && sh != 32) { continue; }
+        for i in 0..b {
+            if c.contains_node(i + big) || c.get_node(i + big).is_some() { alias += 1; }
+            for j in 0..b { if c.contains_edge(i + big, j) || c.contains_edge(i, j + big) { alias += 1; } }
+        }
     }
     if alias > 0 { out.push(777002); out.push(alias); }
     out.push(c.size() as i128);
@@ -43,11 +46,14 @@ fn obs_extra(c: &Ctx, b: usize, out: &mut Vec<i128>) {
         out.push(c.extra_ctx_get_node(i).map(|n| n.id() as i128).unwrap_or(-1));
     }
     for i in 0..b { for j in 0..b { out.push(c.extra_ctx_contains_edge(i, j) as i128); } }
-    let big = 1usize << 32;
     let mut alias = 0i128;
-    for i in 0..b {
-        if c.extra_ctx_contains_node(i + big) || c.extra_ctx_get_node(i + big).is_ok() { alias += 1; }
-        for j in 0..b { if c.extra_ctx_contains_edge(i + big, j) || c.extra_ctx_contains_edge(i, j + big) { alias += 1; } }
+    for sh in [8u32, 16, 32, 48] {
+        let big = 1usize << sh;
+        if big < b || (b > 40 && sh != 32) { continue; }
+        for i in 0..b {
+            if c.extra_ctx_contains_node(i + big) || c.extra_ctx_get_node(i + big).is_ok() { alias += 1; }
+            for j in 0..b { if c.extra_ctx_contains_edge(i + big, j) || c.extra_ctx_contains_edge(i, j + big) { alias += 1; } }
+        }
     }
     if alias > 0 { out.push(777002); out.push(alias); }
     out.push(c.extra_ctx_size().map(|x| x as i128).unwrap_or(-1));
